@@ -122,8 +122,8 @@ CLAIMED = {
                  'of reduced DAGs (Proofs/GraphReach.lean) and was false before repo fix cd71782. Hypotheses: OneP (structural; its '
                  'Boolean form is evaluated by the driver on every generated program and holds on 98 % of the one-of programs) and '
                  'SolutionOne (incl. the input node has a value). General, local tier (all programs): candidates are opened and '
-                 'started strictly in declared order, the next only after a recorded failure, none after a success; unopened '
-                 'candidates are invisible; exhaustion yields OneOfDoesNotHaveResultError, contained when nested (C10_*). Partial: '
+                 'started strictly in declared order, the next only after a recorded failure, none after a success; the edge from a '
+                 'candidate to its one-of is not part of any reduced DAG; exhaustion yields OneOfDoesNotHaveResultError, contained when nested (C10_*). Partial: '
                  'termination, and the shapes with recurrent subgraphs, are tied and monitored, not theorems.', '§6 C10'),
     'C11': sched('Proof (general, local to _run_recurrent_subgraph): iteration k runs only if k < max_iterations and hands the data to '
                  'the start node; exhaustion gives default iff opted in else the recurrent error; a Recurrent result never unlocks '
